@@ -1038,6 +1038,21 @@ func c17HeaderMerge(c *core.Ctx) {
 			}
 		}
 	}
+	// a field scheduled without values survives the join (review of 961bd1b): some statement of the key loop handles
+	// the empty value list itself — a test of len(all[k]) == 0 (or of the list being empty) with a store into the merged map
+	keepsEmpty := false
+	for _, f := range g.Facts() {
+		cmp, ok := u.BranchCmp(f.Br)
+		if !ok || cmp.Val == nil {
+			continue
+		}
+		if ce, isC := ast.Unparen(cmp.X).(*ast.CallExpr); isC && calleeNameOf0(ce) == "len" && len(ce.Args) == 1 {
+			if _, isIx := ast.Unparen(ce.Args[0]).(*ast.IndexExpr); isIx {
+				keepsEmpty = true
+			}
+		}
+	}
+	c.Check(R, "transports.mergeResponseHeaders/field-without-values-kept", u.Pos(), keepsEmpty, "the empty value list of a field is carried over (it suppresses a header net/http would add)")
 	c.Check(R, "transports.mergeResponseHeaders/canonical-in-fixed-order,list-fields-accumulate", u.Pos(), sorted && canon && accum && both >= 2,
 		keyf("keys sorted: %v; names folded through http.Header.Add: %v; existing Vary / Set-Cookie values read and put in front of the bag's: %v", sorted, canon, accum))
 }
